@@ -82,12 +82,10 @@ __CPROVER_ensures(C13_INIT(band)) /*@C13.init*/
 
 /* states and successor states stay below the number of states: needed so that the lookup of the state
  * record is in bounds after any number of steps */
+#define V_CLOSED_(i) && (!((i) < a->transitions_no) || a->transitions_table[i].to < a->states_no)
 static inline bool v_autom_closed(const automata *a) {
-    if (a->states_no > MAX_STATES || a->current_state >= a->states_no || a->transitions_no > MAX_TRANSITIONS) return false;
-    for (int i = 0; i < MAX_TRANSITIONS; i++) {
-        if (i < a->transitions_no && a->transitions_table[i].to >= a->states_no) return false;
-    }
-    return true;
+    return a->states_no <= MAX_STATES && a->current_state < a->states_no && a->transitions_no <= MAX_TRANSITIONS
+           V_REP128(V_CLOSED_);
 }
 
 /* =============================== C14 / C15: automaton step ====================================== */
@@ -138,15 +136,11 @@ static inline bool v_session_step_ok(uint8_t s0, int ev, uint64_t elapsed, short
  * transition matching (state, input), or the state itself when none matches.  Deliberately silent on WHICH
  * of several matching transitions wins, and on the timed-out case (that is decided at the lemma harnesses
  * against the real tables).  Strong enough for the recursive call after a timeout. */
+#define V_MATCH_(i) ((i) < a->transitions_no && a->transitions_table[i].from == s0 && a->transitions_table[i].with == input)
+#define V_ANY_(i) || V_MATCH_(i)
+#define V_HIT_(i) || (V_MATCH_(i) && a->transitions_table[i].to == s1)
 static inline bool v_autom_step_rel(const automata *a, uint8_t s0, int input, uint8_t s1) {
-    bool any = false, hit = false;
-    for (int i = 0; i < MAX_TRANSITIONS; i++) {
-        if (i < a->transitions_no && a->transitions_table[i].from == s0 && a->transitions_table[i].with == input) {
-            any = true;
-            if (a->transitions_table[i].to == s1) hit = true;
-        }
-    }
-    return any ? hit : (s1 == s0);
+    return (false V_REP128(V_ANY_)) ? (false V_REP128(V_HIT_)) : (s1 == s0);
 }
 #define STEP_TIMED_OUT(a, s0, last0, now1) \
     ((a)->states_table[s0].timeout != 0 && (uint64_t)((now1) - (last0)) > (uint64_t)(a)->states_table[s0].timeout)
@@ -206,6 +200,141 @@ automata *init_automata_session(void)
 __CPROVER_assigns(g_led)
 __CPROVER_ensures(C18_CTOR_SESSION(__CPROVER_return_value)) /*@C18.ctor-session*/
 __CPROVER_ensures(C18_CTOR_LEDGER(__CPROVER_return_value, __CPROVER_old(g_led.live))) /*@C18.ctor-ledger C19.ctor-ledger*/
+;
+
+/* =============================== C16: session table ============================================= */
+#define ST_N SESSION_TABLE_MAX_ENTRIES
+static inline bool v_key_eq(const session_entry *e, const uint8_t *mac, uint16_t gen) {
+    return v_mac_eq(e->mapper_mac, mac) && e->generation == gen;
+}
+/* abstract view: number of live sessions, membership, "every live session complete" */
+/* the sum is taken in 8-bit arithmetic (16 one-bit summands): 32-bit adder chains made "count = live sessions"
+ * after an insertion a 3-minute SAT problem */
+#ifdef V_REPLAY
+typedef unsigned v_u8sum;
+#else
+typedef unsigned __CPROVER_bitvector[8] v_u8sum;
+#endif
+#define V_SZ_(i) + (v_u8sum)(t->entries[i].valid ? 1 : 0)
+static inline unsigned v_st_size(const session_table *t) { return (unsigned)((v_u8sum)0 V_REP16(V_SZ_)); }
+#define V_HAS_(i) || (t->entries[i].valid && v_key_eq(&t->entries[i], mac, gen))
+static inline bool v_st_has(const session_table *t, const uint8_t *mac, uint16_t gen) { return false V_REP16(V_HAS_); }
+#define V_ALLC_(i) && (!t->entries[i].valid || t->entries[i].complete)
+static inline bool v_st_allc(const session_table *t) { return true V_REP16(V_ALLC_); }
+/* key uniqueness, stated for the pair (i, g_j) with the ghost index g_j arbitrary: the harness proves
+ * WF_gj(pre) => WF_gj(post) for every g_j, hence (forall g_j. WF_gj(pre)) => (forall g_j. WF_gj(post)) */
+/* the ghost entry is read ONCE by value: a pointer with a symbolic offset dereferenced 100 times cost 600k SAT variables */
+#define V_UNQ_(i) && ((size_t)(i) == g_j || !(t->entries[i].valid && v_mac_eq(t->entries[i].mapper_mac, ej.mapper_mac) && \
+                      t->entries[i].generation == ej.generation))
+static inline bool v_st_unique_with(const session_table *t, session_entry ej) { return !ej.valid || (true V_REP16(V_UNQ_)); }
+static inline bool v_st_unique(const session_table *t) { return g_j >= ST_N || v_st_unique_with(t, t->entries[g_j]); }
+/* representation invariant; ST_WF_NOFLAG is "well-formed modulo the all-complete flag" (the state between a
+ * caller's write to entry->complete and its call of session_table_update_complete_status) */
+/* evaluated on a by-value copy: one dereference of the (possibly NULL / freshly allocated) pointer instead
+ * of ~200, each of which would carry its own pointer-validity obligations */
+static inline bool v_st_wf_noflag_v(session_table tv) { return tv.count == v_st_size(&tv) && v_st_unique(&tv); }
+static inline bool v_st_wf_v(session_table tv) { return v_st_wf_noflag_v(tv) && tv.all_complete == v_st_allc(&tv); }
+static inline unsigned v_st_size_v(session_table tv) { return v_st_size(&tv); }
+static inline bool v_st_allc_v(session_table tv) { return v_st_allc(&tv); }
+static inline bool v_st_has_v(session_table tv, const uint8_t *mac, uint16_t gen) { return v_st_has(&tv, mac, gen); }
+#define ST_WF_NOFLAG(t) (V_RW_OK((t), sizeof(session_table)) && v_st_wf_noflag_v(*(t)))
+#define ST_WF(t)        (V_RW_OK((t), sizeof(session_table)) && v_st_wf_v(*(t)))
+#define V_IDX_(i) (e == &t->entries[i]) ? (i) :
+static inline int v_st_index(const session_table *t, const session_entry *e) { return V_REP16(V_IDX_) -1; }
+static inline bool v_entry_same_v(session_entry a, session_entry b) {
+    return v_mac_eq(a.mapper_mac, b.mapper_mac) && a.generation == b.generation && a.seq_number == b.seq_number &&
+           a.state == b.state && a.complete == b.complete && a.valid == b.valid &&
+           a.last_activity_ts == b.last_activity_ts && a.created_ts == b.created_ts;
+}
+static inline bool v_key_eq_v(session_entry e, const uint8_t *mac, uint16_t gen) {
+    return v_mac_eq(e.mapper_mac, mac) && e.generation == gen;
+}
+#define v_entry_same(pa, pb) v_entry_same_v(*(pa), *(pb))
+static inline bool v_live_key_v(session_entry e, const uint8_t *mac, uint16_t gen) { return e.valid && v_key_eq_v(e, mac, gen); }
+#define GJ_OK (g_j < ST_N)
+
+session_table *session_table_create(void)
+__CPROVER_assigns(g_led)
+__CPROVER_ensures(__CPROVER_return_value == NULL || (ST_WF(__CPROVER_return_value) && __CPROVER_return_value->count == 0 && __CPROVER_return_value->all_complete)) /*@C16.create C18.ctor-table*/
+__CPROVER_ensures(g_led.live == __CPROVER_old(g_led.live) + (__CPROVER_return_value != NULL ? 1u : 0u)) /*@C18.ctor-ledger C19.ctor-ledger*/
+;
+
+#define FIND_ARGS_OK(t, mac) (((t) == NULL || ST_WF_NOFLAG(t)) && ((mac) == NULL || V_R_OK((mac), 6)))
+#define C16_FIND_HIT(t, mac, gen, ret) \
+    ((ret) == NULL || ((t) != NULL && (mac) != NULL && v_st_index((t), (ret)) >= 0 && (ret)->valid && v_key_eq((ret), (mac), (gen))))
+#define C16_FIND_MISS(t, mac, gen, ret) \
+    ((ret) != NULL || (t) == NULL || (mac) == NULL || !GJ_OK || !v_live_key_v((t)->entries[g_j], (mac), (gen)))
+
+session_entry *session_table_find(session_table *table, const uint8_t *mapper_mac, uint16_t generation, uint16_t seq)
+__CPROVER_requires(FIND_ARGS_OK(table, mapper_mac))
+__CPROVER_assigns()
+__CPROVER_ensures(C16_FIND_HIT(table, mapper_mac, generation, __CPROVER_return_value)) /*@C16.find-hit C11.find*/
+__CPROVER_ensures(C16_FIND_MISS(table, mapper_mac, generation, __CPROVER_return_value)) /*@C16.find-miss C11.find*/
+;
+
+#define ADD_ARGS_OK(t, mac) (((t) == NULL || ST_WF(t)) && ((mac) == NULL || V_R_OK((mac), 6)))
+#define C16_ADD_WF(t)  ((t) == NULL || ST_WF(t))
+#define C16_ADD_RET(t, mac, gen, seq, ret) \
+    ((ret) == NULL || (v_st_index((t), (ret)) >= 0 && (ret)->valid && v_key_eq((ret), (mac), (gen)) && (ret)->seq_number == (seq) && \
+                       (ret)->last_activity_ts == v_now_s()))
+/* entry g_j: untouched unless it is the returned one; a returned entry that was live before is a refresh
+ * (size unchanged), one that was free is an insertion (size + 1, incomplete) */
+#define C16_ADD_GJ(t, ret, e0, count0) \
+    (!GJ_OK || (t) == NULL || \
+     ((ret) != &(t)->entries[g_j] ? v_entry_same_v((t)->entries[g_j], (e0)) \
+        : ((e0).valid ? ((t)->count == (count0) && (t)->entries[g_j].complete == (e0).complete && (t)->entries[g_j].created_ts == (e0).created_ts) \
+                      : ((t)->count == (count0) + 1 && !(t)->entries[g_j].complete))))
+#define C16_ADD_NULL(t, mac, ret, count0) \
+    ((ret) != NULL || (t) == NULL || (mac) == NULL || ((count0) == ST_N && (t)->count == (count0)))
+
+session_entry *session_table_add(session_table *table, const uint8_t *mapper_mac, uint16_t generation, uint16_t seq)
+__CPROVER_requires(ADD_ARGS_OK(table, mapper_mac))
+__CPROVER_requires(GJ_OK)
+__CPROVER_assigns(table != NULL: *table; g_led)
+__CPROVER_ensures(C16_ADD_WF(table)) /*@C16.add-wf*/
+__CPROVER_ensures(C16_ADD_RET(table, mapper_mac, generation, seq, __CPROVER_return_value)) /*@C16.add-ret*/
+__CPROVER_ensures(C16_ADD_GJ(table, __CPROVER_return_value, __CPROVER_old(table->entries[g_j]), __CPROVER_old(table->count))) /*@C16.add-others*/
+__CPROVER_ensures(C16_ADD_NULL(table, mapper_mac, __CPROVER_return_value, __CPROVER_old(table->count))) /*@C16.add-full*/
+;
+
+#define C16_REMOVE_GONE(t, mac, gen) ((t) == NULL || (mac) == NULL || !GJ_OK || !v_live_key_v((t)->entries[g_j], (mac), (gen)))
+#define C16_REMOVE_GJ(t, mac, gen, e0) \
+    (!GJ_OK || (t) == NULL || (mac) == NULL || \
+     (((e0).valid && v_key_eq_v((e0), (mac), (gen))) ? !(t)->entries[g_j].valid : v_entry_same_v((t)->entries[g_j], (e0))))
+
+void session_table_remove(session_table *table, const uint8_t *mapper_mac, uint16_t generation)
+__CPROVER_requires(ADD_ARGS_OK(table, mapper_mac))
+__CPROVER_requires(GJ_OK)
+__CPROVER_assigns(table != NULL: *table)
+__CPROVER_ensures(C16_ADD_WF(table)) /*@C16.remove-wf*/
+__CPROVER_ensures(C16_REMOVE_GONE(table, mapper_mac, generation)) /*@C16.remove-gone*/
+__CPROVER_ensures(C16_REMOVE_GJ(table, mapper_mac, generation, __CPROVER_old(table->entries[g_j]))) /*@C16.remove-others*/
+;
+
+#define C16_UPD_GJ(t, e0, count0) (!GJ_OK || (t) == NULL || (v_entry_same_v((t)->entries[g_j], (e0)) && (t)->count == (count0)))
+void session_table_update_complete_status(session_table *table)
+__CPROVER_requires(table == NULL || ST_WF_NOFLAG(table))
+__CPROVER_requires(GJ_OK)
+__CPROVER_assigns(table != NULL: table->all_complete)
+__CPROVER_ensures(table == NULL || ST_WF(table)) /*@C16.update-wf*/
+;
+
+bool session_table_is_empty(session_table *table)
+__CPROVER_requires(table == NULL || ST_WF_NOFLAG(table))
+__CPROVER_assigns()
+__CPROVER_ensures(__CPROVER_return_value == (table == NULL || v_st_size_v(*table) == 0)) /*@C16.is-empty*/
+;
+
+bool session_table_all_complete(session_table *table)
+__CPROVER_requires(table == NULL || ST_WF(table))
+__CPROVER_assigns()
+__CPROVER_ensures(__CPROVER_return_value == (table == NULL || v_st_allc_v(*table))) /*@C16.all-complete*/
+;
+
+void session_table_clear(session_table *table)
+__CPROVER_requires(table == NULL || V_RW_OK(table, sizeof(session_table)))
+__CPROVER_assigns(table != NULL: *table)
+__CPROVER_ensures(table == NULL || (ST_WF(table) && table->count == 0 && table->all_complete)) /*@C16.clear*/
 ;
 
 #endif
